@@ -90,6 +90,11 @@ SETTINGS = {
     'full': {},
     'no-type-map': {'prefixes': {}},
     'bypass-prefixes': {'bypass_prefixes': ['documentation', 'dependabot']},
+    # entries that are string-prefixes of OTHER branch prefixes (bug/bugfix,
+    # feat/feature, doc/documentation, 'bugfix/TEST' of a whole name): the
+    # statement speaks of a bypassed branch *prefix*
+    'bypass-prefix-of-another': {'bypass_prefixes': ['bug', 'feat', 'doc',
+                                                     'bugfix/TEST', 'e']},
     'no-version-checks': {'disable_version_checks': True},
     'combo': {'bypass_prefixes': ['epic'], 'disable_version_checks': True,
               'prefixes': {}},
